@@ -34,17 +34,22 @@ func init() {
 	vh.Register("C09", Run)
 	vh.RegisterChild("c09sched", schedChild)
 	vh.RegisterChild("c09stress", stressChild)
+	vh.RegisterChild("c09storm", stormChild)
+	vh.RegisterChild("c09script", scriptChild)
 }
 
 // ------------------------------------------------------------------ cases
 
 type Case struct {
-	Kind   string     `json:"kind"` // sched | stress
+	Kind   string     `json:"kind"` // sched | stress | storm | script
 	Cap    int        `json:"cap,omitempty"`
 	Progs  string     `json:"progs,omitempty"`
 	Acts   string     `json:"acts,omitempty"`  // r0,a1,h0.2,…
 	Sched  string     `json:"sched,omitempty"` // with the model's predictions (as printed by vm_c09)
 	Stress *stressCfg `json:"stress,omitempty"`
+	Storm  *stormCfg  `json:"storm,omitempty"`  // first-call storm on fresh Channel objects (storm.go)
+	Script *scriptCfg `json:"script,omitempty"` // a real script with spawn (spawnscript.go)
+	Tries  int        `json:"tries,omitempty"`  // replay: repeat up to this many times until it fails (free-running parts)
 	Race   bool       `json:"race,omitempty"`
 }
 
@@ -281,7 +286,7 @@ func (p *pool) run() {
 			w.cmd.Wait()
 			r.crashed = true
 			r.detail = err.Error()
-			r.stderr = tail(w.stderr.String(), 1500)
+			r.stderr = crashHead(w.stderr.String()) + " … " + tail(w.stderr.String(), 600)
 			w = nil
 		}
 		p.results <- r
@@ -308,6 +313,7 @@ type runner struct {
 	pending  int
 	failures int
 	found    []finding // buffered so that the shortest, most deterministic cases are reported first
+	stopAt   int       // replay: stop after this many failing schedules (0: maxFailures)
 }
 
 type finding struct {
@@ -333,7 +339,12 @@ func (r *runner) flush() {
 // after this many failing schedules the run stops early (every further one could cost a watchdog period)
 const maxFailures = 40
 
-func (r *runner) stopped() bool { return r.failures >= maxFailures }
+func (r *runner) stopped() bool {
+	if r.stopAt > 0 {
+		return r.failures >= r.stopAt
+	}
+	return r.failures >= maxFailures
+}
 
 func (r *runner) caseOf(j job) Case {
 	return Case{Kind: "sched", Cap: j.cfg.Cap, Progs: j.cfg.progs(), Acts: actsOf(j.sched), Sched: j.sched}
@@ -403,6 +414,8 @@ func (r *runner) account(res jobResult) {
 	cs := r.caseOf(res.job)
 	switch {
 	case res.crashed:
+		// the forced part is deterministic, a crash in the free-running phases (quiescence check, cleanup) is not: replay retries
+		cs.Tries = 400
 		r.found = append(r.found, finding{true, "crash:" + crashKind(res.stderr+res.detail), fmt.Sprintf("the child process died while this schedule was forced on the real Channel: %s | %s", res.detail, firstLines(res.stderr, 6)), cs, len(cs.Acts)})
 	case res.status == "ok":
 		c.Res.Traces++
@@ -427,10 +440,41 @@ func crashKind(s string) string {
 		return "close-of-closed"
 	case strings.Contains(s, "all goroutines are asleep"):
 		return "deadlock"
+	case strings.Contains(s, "concurrent map"):
+		return "concurrent-map-access"
 	case strings.Contains(s, "DATA RACE"):
 		return "data-race"
+	case strings.Contains(s, "fatal error:"):
+		return "fatal-error"
 	}
 	return "other"
+}
+
+// crashHead: the line that says why a child died (`fatal error: …`, `panic: …`, `WARNING: DATA RACE`)
+// plus the frames of the repository under test that follow it.
+func crashHead(stderr string) string {
+	lines := strings.Split(stderr, "\n")
+	start := -1
+	for i, l := range lines {
+		if strings.HasPrefix(l, "fatal error:") || strings.HasPrefix(l, "panic:") || strings.Contains(l, "WARNING: DATA RACE") {
+			start = i
+			break
+		}
+	}
+	if start < 0 {
+		return firstLines(stderr, 6)
+	}
+	out := []string{strings.TrimSpace(lines[start])}
+	for _, l := range lines[start+1:] {
+		t := strings.TrimSpace(l)
+		if strings.HasPrefix(t, "github.com/php-any/origami/") && len(out) < 7 {
+			if i := strings.LastIndexByte(t, '('); i > 0 {
+				t = t[:i]
+			}
+			out = append(out, strings.TrimPrefix(t, "github.com/php-any/origami/"))
+		}
+	}
+	return strings.Join(out, " / ")
 }
 
 func firstLines(s string, n int) string {
@@ -633,11 +677,22 @@ func Run(c *vh.Ctx) {
 		c.Res.Exhaustive = nAll > 0
 		c.Res.ExhaustiveWhat = fmt.Sprintf("configurations taken in order of weight (atomic steps): every maximal schedule of %d configurations (weight ≤ %d, those with ≤ %d schedules each; %d schedules); every transition of the reachable state graph of %d further configurations (weight ≤ %d; %d paths); the remaining %d configurations are not enumerated, %d of them sampled by %d seeded random maximal schedules each", nAll, maxAllW, perCfgAll, usedAll, nEdges, maxEdgesW, usedEdges, len(cfgs)-nAll-nEdges, walkDone, walks)
 		c.Note("%s", c.Res.ExhaustiveWhat)
+		c.Note("forced schedules took %.1fs", c.Elapsed().Seconds())
 	}
+	t0 := c.Elapsed()
 	runStress(c)
+	c.Note("storms, spawn scripts and stress rounds took %.1fs", (c.Elapsed() - t0).Seconds())
 }
 
 // ------------------------------------------------------------------ stress
+
+// childOut: what one free-running child (stress / storm / script) reported
+type childOut struct {
+	cs     Case
+	res    stressRes
+	err    string
+	stderr string
+}
 
 func runStress(c *vh.Ctx) {
 	bin := vh.Self()
@@ -645,22 +700,35 @@ func runStress(c *vh.Ctx) {
 	if c.Thorough() {
 		if rb, err := buildRace(c); err == nil {
 			bin, race = rb, true
-			c.Note("stress runs use a -race build of the harness (race reports make the child exit non-zero)")
+			c.Note("stress rounds, first-call storms and spawn scripts use a -race build of the harness (a race report makes the child exit non-zero)")
 		} else {
 			c.Note("no -race build for the stress runs: %v", err)
 		}
 	}
 	procs := []int{1, 2, 3, 4, 8, 16}
-	n := c.N(18, 120)
-	type out struct {
-		cfg    stressCfg
-		res    stressRes
-		err    string
-		stderr string
+	var cases []Case
+	// (a) first-call storms: every goroutine released into its first script-level call on a fresh object at once
+	nStorm := c.N(8, 32)
+	for i := 0; i < nStorm; i++ {
+		cfg := stormCfg{G: vh.Pick(c.Rand, []int{3, 4, 6, 8}), Objects: c.N(10000, 60000), Seed: c.Rand.U64(),
+			Procs: []int{16, 8, 4, 16, 2, 16, 8, 3}[i%8], Mix: []string{"all", "dispatch"}[i%2]}
+		if race {
+			cfg.Objects /= 8
+		}
+		cases = append(cases, Case{Kind: "storm", Storm: &cfg, Race: race})
 	}
-	results := make(chan out, n)
-	sem := make(chan struct{}, 4)
-	var wg sync.WaitGroup
+	// (b) real scripts with spawn
+	nScript := c.N(8, 36)
+	for i := 0; i < nScript; i++ {
+		cfg := scriptCfg{P: c.Rand.Range(1, 4), C: c.Rand.Range(1, 3), N: vh.Pick(c.Rand, []int{1, 3, 3, 20}),
+			Closers: vh.Pick(c.Rand, []int{0, 0, 1, 2}), Rounds: c.N(1500, 6000), Procs: []int{16, 4, 8, 2, 16, 1}[i%6], Seed: c.Rand.U64()}
+		if race {
+			cfg.Rounds /= 6
+		}
+		cases = append(cases, Case{Kind: "script", Script: &cfg, Race: race})
+	}
+	// (c) free-running stress through the script-level calls
+	n := c.N(18, 120)
 	for i := 0; i < n; i++ {
 		cfg := stressCfg{
 			P: c.Rand.Range(1, 6), C: c.Rand.Range(1, 6), N: vh.Pick(c.Rand, []int{3, 20, 200}),
@@ -670,43 +738,74 @@ func runStress(c *vh.Ctx) {
 		if race {
 			cfg.Rounds /= 4
 		}
+		cases = append(cases, Case{Kind: "stress", Stress: &cfg, Race: race})
+	}
+	results := make(chan childOut, len(cases))
+	sem := make(chan struct{}, 4)
+	var wg sync.WaitGroup
+	for _, cs := range cases {
 		wg.Add(1)
 		sem <- struct{}{}
-		go func(cfg stressCfg) {
+		go func(cs Case) {
 			defer wg.Done()
 			defer func() { <-sem }()
-			results <- runStressChild(bin, cfg)
-		}(cfg)
+			results <- runChild(bin, cs)
+		}(cs)
 	}
 	wg.Wait()
 	close(results)
 	for o := range results {
-		cs := Case{Kind: "stress", Stress: &o.cfg, Race: race}
-		c.Eval(fmt.Sprintf("stress/%+v", o.cfg), true)
-		c.Hit(fmt.Sprintf("stress:procs=%d", o.cfg.Procs))
-		c.HitN("stress:rounds", o.res.Rounds)
-		c.HitN("stress:sends-ok", o.res.SendsOK)
-		c.HitN("stress:sends-failed", o.res.SendsFail)
-		c.HitN("stress:received", o.res.Received)
-		if o.err != "" {
-			c.Violation("crash:"+crashKind(o.stderr+o.err), fmt.Sprintf("stress child died: %s | %s", o.err, firstLines(o.stderr, 8)), cs)
-			continue
+		b, _ := json.Marshal(o.cs)
+		c.Eval(o.cs.Kind+"/"+string(b), true)
+		switch o.cs.Kind {
+		case "stress":
+			c.Hit(fmt.Sprintf("stress:procs=%d", o.cs.Stress.Procs))
+		case "storm":
+			c.Hit(fmt.Sprintf("storm:procs=%d", o.cs.Storm.Procs))
+			c.HitN("storm:fresh-objects", o.res.Rounds)
+		case "script":
+			c.Hit(fmt.Sprintf("script:procs=%d", o.cs.Script.Procs))
 		}
-		for _, v := range o.res.Vios {
-			c.Violation(v.Sig, fmt.Sprintf("stress (GOMAXPROCS=%d, round %d): %s", o.cfg.Procs, v.Round, v.Detail), cs)
-		}
+		k := o.cs.Kind
+		c.HitN(k+":rounds", o.res.Rounds)
+		c.HitN(k+":sends-ok", o.res.SendsOK)
+		c.HitN(k+":sends-failed", o.res.SendsFail)
+		c.HitN(k+":received", o.res.Received)
+		reportChild(c, o)
 	}
 }
 
-func runStressChild(bin string, cfg stressCfg) (o struct {
-	cfg    stressCfg
-	res    stressRes
-	err    string
-	stderr string
-}) {
-	o.cfg = cfg
-	b, _ := json.Marshal(cfg)
-	cmd := exec.Command(bin, "__child", "c09stress", string(b))
+func reportChild(c *vh.Ctx, o childOut) {
+	if o.err != "" {
+		c.Violation("crash:"+crashKind(o.stderr+o.err), fmt.Sprintf("%s child died (%s): %s", o.cs.Kind, o.err, o.stderr), o.cs)
+		return
+	}
+	for _, v := range o.res.Vios {
+		c.Violation(v.Sig, fmt.Sprintf("%s (round %d): %s", o.cs.Kind, v.Round, v.Detail), o.cs)
+	}
+}
+
+// runChild runs one stress / storm / script case in a child process of `bin`.
+func runChild(bin string, cs Case) (o childOut) {
+	o.cs = cs
+	var name string
+	var b []byte
+	switch cs.Kind {
+	case "stress":
+		name = "c09stress"
+		b, _ = json.Marshal(cs.Stress)
+	case "storm":
+		name = "c09storm"
+		b, _ = json.Marshal(cs.Storm)
+	case "script":
+		name = "c09script"
+		b, _ = json.Marshal(cs.Script)
+	}
+	if name == "" || string(b) == "null" {
+		o.err = "malformed case"
+		return
+	}
+	cmd := exec.Command(bin, "__child", name, string(b))
 	cmd.Env = append(os.Environ(), "GORACE=halt_on_error=1 exitcode=66")
 	var so, se bytes.Buffer
 	cmd.Stdout, cmd.Stderr = &so, &se
@@ -720,7 +819,7 @@ func runStressChild(bin string, cfg stressCfg) (o struct {
 	case err := <-done:
 		if err != nil {
 			o.err = err.Error()
-			o.stderr = tail(se.String(), 3000)
+			o.stderr = crashHead(se.String())
 			return
 		}
 	case <-time.After(10 * time.Minute):
@@ -730,7 +829,7 @@ func runStressChild(bin string, cfg stressCfg) (o struct {
 	}
 	if json.Unmarshal(bytes.TrimSpace(so.Bytes()), &o.res) != nil {
 		o.err = "unreadable result: " + tail(so.String(), 200)
-		o.stderr = tail(se.String(), 2000)
+		o.stderr = crashHead(se.String())
 	}
 	return
 }
@@ -785,17 +884,27 @@ func replay(c *vh.Ctx) {
 		return
 	}
 	switch cs.Kind {
-	case "stress":
-		if cs.Stress == nil {
-			return
+	case "stress", "storm", "script":
+		bin := vh.Self()
+		if cs.Race {
+			if rb, err := buildRace(c); err == nil {
+				bin = rb
+			} else {
+				c.Note("no -race build for the replay: %v", err)
+			}
 		}
-		o := runStressChild(vh.Self(), *cs.Stress)
-		c.Eval("replay", true)
-		if o.err != "" {
-			c.Violation("crash:"+crashKind(o.stderr+o.err), fmt.Sprintf("stress child died: %s | %s", o.err, firstLines(o.stderr, 8)), cs)
+		// free-running: the recorded configuration is repeated until it fails (at most Tries times, default 5)
+		tries := cs.Tries
+		if tries <= 0 {
+			tries = 5
 		}
-		for _, v := range o.res.Vios {
-			c.Violation(v.Sig, v.Detail, cs)
+		for i := 0; i < tries; i++ {
+			o := runChild(bin, cs)
+			c.Eval(fmt.Sprintf("replay/%d", i), true)
+			if o.err != "" || len(o.res.Vios) > 0 {
+				reportChild(c, o)
+				break
+			}
 		}
 	default:
 		sched := cs.Sched
@@ -807,8 +916,12 @@ func replay(c *vh.Ctx) {
 			}
 		}
 		cfg := config{Cap: cs.Cap, Progs: strings.Split(cs.Progs, "|")}
-		r := &runner{c: c, pool: newPool(vh.Self(), 1, 300)}
-		r.submit(cfg, []string{sched}, "replay")
+		r := &runner{c: c, pool: newPool(vh.Self(), 1, 300), stopAt: 1}
+		scheds := []string{sched}
+		for i := 1; i < cs.Tries; i++ { // a failure outside the forced part: repeat until it shows
+			scheds = append(scheds, sched)
+		}
+		r.submit(cfg, scheds, "replay")
 		close(r.pool.jobs)
 		r.drain(true)
 		r.pool.wg.Wait()
